@@ -1,3 +1,4 @@
+pub mod alloc;
 pub mod engine;
 pub mod gen;
 pub mod model;
